@@ -61,7 +61,8 @@ def _case(draw, tier):
     ties = draw(st.sampled_from([False, False, True]))
     tool = draw(st.sampled_from([False, False, False, True]))
     decoys = True if (ties or tool) else draw(st.booleans())
-    prefixes = True if tool else draw(st.sampled_from([True, True, False]))
+    # "mixed": the first collection goes to the un-prefixed files, the later ones get a prefix each
+    prefixes = True if tool else draw(st.sampled_from([True, True, False, "mixed"]))
     extra = draw(st.lists(st.sampled_from(["ModifiedPeptide", "Precursor", "PeptideGroup"]), unique=True, max_size=3))
     return {
         "seed": draw(st.integers(0, 2**31 - 1)),
@@ -158,7 +159,11 @@ def check(case):
         dest.mkdir()
         # "no prefix" is spelled None by library callers and "" by the command line (single file / --aggregate)
         noprefix = "" if case["seed"] % 2 else None
-        prefixes = [f"c{ci}" for ci in range(len(psms))] if case["prefixes"] else [noprefix] * len(psms)
+        if case["prefixes"] == "mixed":
+            prefixes = [noprefix] + [f"c{ci}" for ci in range(1, len(psms))]
+        else:
+            prefixes = [f"c{ci}" for ci in range(len(psms))] if case["prefixes"] else [noprefix] * len(psms)
+        plist = list(prefixes)
         with config_inject.chunk_sizes(confidence=case["conf_chunk"], merge=case["merge_chunk"]):
             guarded(
                 mokapot.assign_confidence,
@@ -182,7 +187,7 @@ def check(case):
         nt_flags = {"winner_not_first": False, "peptide_multi": False}
         for lname, lcol in levels:
             for ci in range(len(psms)):
-                pre = f"c{ci}." if case["prefixes"] else ""
+                pre = f"{plist[ci]}." if plist[ci] else ""
                 expected_files.add(f"{pre}targets.{lname}")
                 if case["decoys"]:
                     expected_files.add(f"{pre}decoys.{lname}")
@@ -193,19 +198,20 @@ def check(case):
         psm_obs = {}
         for lname, lcol in levels:
             tfiles, dfiles = {}, {}
-            if case["prefixes"]:
-                for ci in range(len(psms)):
-                    tfiles[ci] = _read(dest / f"c{ci}.targets.{lname}")
-                    if case["decoys"]:
-                        dfiles[ci] = _read(dest / f"c{ci}.decoys.{lname}")
-            else:
+            with_pre = [ci for ci in range(len(psms)) if plist[ci]]
+            without = [ci for ci in range(len(psms)) if not plist[ci]]
+            for ci in with_pre:
+                tfiles[ci] = _read(dest / f"{plist[ci]}.targets.{lname}")
+                if case["decoys"]:
+                    dfiles[ci] = _read(dest / f"{plist[ci]}.decoys.{lname}")
+            if without:
                 tall = _read(dest / f"targets.{lname}")
                 dall = _read(dest / f"decoys.{lname}") if case["decoys"] else None
-                for ci in range(len(psms)):
+                for ci in without:
                     pref = f"f{ci}_"
-                    tfiles[ci] = tall[tall["PSMId"].str.startswith(pref)].reset_index(drop=True)
+                    tfiles[ci] = tall[tall["PSMId"].astype(str).str.startswith(pref)].reset_index(drop=True)
                     if dall is not None:
-                        dfiles[ci] = dall[dall["PSMId"].str.startswith(pref)].reset_index(drop=True)
+                        dfiles[ci] = dall[dall["PSMId"].astype(str).str.startswith(pref)].reset_index(drop=True)
                 # blocks must appear in collection order
                 for name, allf in (("targets", tall), ("decoys", dall)):
                     if allf is None or not len(allf):
@@ -230,7 +236,9 @@ def check(case):
         classes.append("rollup-off")
     if len(case["colls"]) >= 2:
         classes.append("multi-collection")
-    if not case["prefixes"]:
+    if case["prefixes"] == "mixed" and len(case["colls"]) >= 2:
+        classes.append("first-collection-without-prefix-others-with")
+    elif not case["prefixes"] or case["prefixes"] == "mixed":
         classes.append("no-prefixes" + ("-empty-string" if case["seed"] % 2 else "-none"))
     if case["extra"]:
         classes.append("extra-levels")
